@@ -15,7 +15,7 @@ from sa.report import Run
 from sa.scipp_model import Model
 from sa.term import Rat, Vec
 from sa.units import Unit
-from sa.witness import WitnessInterp, WitnessModel, items_of, sym_scalar
+from sa.witness import WitnessInterp, WitnessModel, items_of, real_type, sym_scalar
 
 from .common import callee_receiving, private_helper, eq_term, events, history_free, returns, show
 
@@ -185,7 +185,7 @@ class _Memoised:
 # pure numpy functions of literal data: folded with numpy itself
 _FOLDABLE = {'repeat', 'tile', 'array', 'asarray', 'ones', 'zeros', 'cos', 'sin', 'sqrt', 'outer', 'multiply.outer', 'multiply', 'ravel',
              'concatenate', 'kron', 'full', 'arange', 'linspace', 'reshape', 'broadcast_to', 'meshgrid', 'stack', 'hstack', 'square',
-             'add', 'subtract', 'divide', 'power', 'ones_like', 'zeros_like', 'ascontiguousarray', 'copy', 'einsum', 'prod'}
+             'add', 'subtract', 'divide', 'power', 'divmod', 'floor_divide', 'mod', 'remainder', 'ones_like', 'zeros_like', 'ascontiguousarray', 'copy', 'einsum', 'prod'}
 
 
 class FoldModel(WitnessModel):
@@ -206,7 +206,7 @@ class FoldModel(WitnessModel):
             fn = np
             for part in path.split('.')[1:]:
                 fn = getattr(fn, part)
-            return fn(*args, **kwargs)
+            return fn(*args, **{k: real_type(v) for k, v in kwargs.items()})
         return super().call_ext(interp, path, args, kwargs, node)
 
     def sc_array(self, interp, args, kwargs, node):
